@@ -5,6 +5,7 @@ import impl
 import phys
 from common import text
 
+EXTRA_COQ_FILES = ('GenFacts/SitesOK.v',)
 RULE = ('K-out: small synthetic files written with EVERY output chunk size from the record length to file size + 1 '
         '(plus integral floats), with prior content of several sizes at the target path; the on-disk content after '
         'every physical write (flush-tap) is compared with the model\'s snapshot list. K-chunk-rule: accepted/rejected '
@@ -76,6 +77,25 @@ def run(ctx):
 
     # input chunk sizes and output chunk sizes on real files
     n_real = 6 if ctx.tier == 'quick' else 40
+    # an input chunk size that is not a positive number of rows: refused, or else invisible like every accepted one
+    # (C11_chunks needs 0 < chunk: the code has to enforce it; a negative size used to drop rows silently)
+    import common as _common
+    for k in range(3 if ctx.tier == 'quick' else 12):
+        seed = ctx.seed * 1000 + 500 + k
+        rows = ctx.rng('nrows%d' % k).randrange(1, 13)
+        refo = None
+        for ic in [None, 0, -1, -2, -3, -rows, -(rows + 1), True]:
+            r = _common.Rng(seed, 'file')
+            df, info = impl.simple_file(r, vrl=8192, rows=rows)
+            o = impl.outcome(lambda: impl.write_real(df, in_chunk=ic))
+            ctx.count('K-in-odd', key=(k, repr(ic)))
+            ctx.stat('K-in-odd', 'refused' if o[0] != 'ok' else 'written')
+            if ic is None:
+                refo = o
+                continue
+            if o[0] == 'ok' and (refo is None or refo[0] != 'ok' or o[1]['file'] != refo[1]['file']):
+                ctx.violation('file-depends-on-chunk-size', {'file_seed': seed, 'rows': rows, 'input_chunk': repr(ic), 'len': len(o[1]['file']),
+                                                             'reference_len': len(refo[1]['file']) if refo and refo[0] == 'ok' else None})
     for k in range(n_real):
         seed = ctx.seed * 1000 + k
         rows = ctx.rng('rows%d' % k).randrange(1, 13)
